@@ -31,4 +31,4 @@ ENTRY = {
 from vlib.trans_bcastsession import bcastsession as _bs
 ENTRY["translators"] = list(ENTRY.get("translators", [])) + [_bs]
 ENTRY.setdefault("lean_props_extra", []).append("CharonV.Props.C13Session")
-ENTRY["trusted_base"] = ENTRY["trusted_base"] + ["translator T-session (vlib/trans_bcastsession.py): text scan of dkg/**/*.go for direct calls bcast.New(…, session) with balanced-parenthesis argument splitting; fails closed on any other use of bcast.New"]
+ENTRY["trusted_base"] = ENTRY["trusted_base"] + ["translator T-session (harness/cmd/trans-bcastsession, a go/parser tool; wrapper vlib/trans_bcastsession.py): every direct call bcast.New(…, session) of dkg/**/*.go with the session argument printed after substituting single-assignment locals (followed only if neither the local nor anything its definition mentions is written later or address-taken); fails closed on any other use of bcast.New"]
